@@ -66,6 +66,7 @@ import (
 	"github.com/openGemini/openGemini/lib/util/lifted/influx/meta"
 	"github.com/openGemini/openGemini/lib/util/lifted/influx/query"
 	"github.com/openGemini/openGemini/lib/util/lifted/vm/protoparser/influx"
+	"github.com/openGemini/openGemini/lib/verifhook"
 	"github.com/pingcap/failpoint"
 	"github.com/savsgio/dictpool"
 	"go.uber.org/zap"
@@ -1100,6 +1101,7 @@ func (s *shard) Close() error {
 	s.DisableHierarchicalStorage()
 	s.DisableCompAndMerge()
 
+	verifhook.Yield("Close.beforeMuLock")
 	s.mu.Lock()
 	defer s.mu.Unlock()
 
